@@ -344,6 +344,25 @@ func (v *View) holdsAt(b *ssa.BasicBlock, val ssa.Value, k factKind) bool {
 	return ok && fs[fact{val, k}]
 }
 
+// Infeasible reports whether the facts known at the entry of b are contradictory
+// (the same condition both true and false, or a value both nil and non-nil).
+func (v *View) Infeasible(b *ssa.BasicBlock) bool {
+	fs := v.FactsAt(b)
+	for f := range fs {
+		switch f.k {
+		case factTrue:
+			if fs[fact{f.v, factFalse}] {
+				return true
+			}
+		case factNil:
+			if fs[fact{f.v, factNonNil}] {
+				return true
+			}
+		}
+	}
+	return false
+}
+
 // FactsAt returns the facts known at the entry of block b.
 func (v *View) FactsAt(b *ssa.BasicBlock) factSet {
 	v.computeFacts()
